@@ -470,6 +470,7 @@ theorem inv_call {W : World} {C : List Cap} {n : Nat} (ih : Inv W C n)
                     cases hlf : lookupFile W.fs p <;> simp [hlf] at hv
                     subst hv; simp [Val.reach]
               | data => exact P_unmodelled C
+              | src _ => exact P_unmodelled C
               | _ => exact P_fail C
             · refine ⟨?_, ?_⟩
               · intro cp ag he
